@@ -18,7 +18,8 @@ CFG = {
                           'Dlis.C18.frames_independent', 'Dlis.run_invariants']),
     'C20': dict(theorems=['Dlis.C20.rejected_call_is_identity', 'Dlis.C20.rejected_leaves_objects',
                           'Dlis.C20.later_copy_numbers_unaffected', 'Dlis.C20.history_without_rejected_calls',
-                          'Dlis.C20.later_files_unaffected', 'Dlis.C20.dataset_names_unaffected',
+                          'Dlis.C20.later_files_unaffected', 'Dlis.C20.refused_check_leaves_assignment',
+                          'Dlis.C20.dataset_names_unaffected',
                           'Dlis.C20.dataset_name_fresh', 'Dlis.run_invariants']),
 }
 RULE = ('histories of 3..14 add_* calls over 1..3 logical files: 11 object types + origins, repeated names, explicit '
@@ -117,6 +118,8 @@ def run_prop(prop, tier):
             c20_failed_write_stream(chk, tier, tmp)
             wf.refused_then_corrected('C20', tier, model, bres, chk, 30, 300)
             dataset_name_stream(chk, model, bres, tier)
+            from harness import defaults as _defaults
+            _defaults.sequence_stream(chk, model, bres, rng('C20', 'dimension-sequences'), 150 if tier == 'quick' else 1500)
         if chk.disagreements and not chk.failures and bres.ok:
             # failing-input search: the correspondence is broken; look for a concrete history on which the
             # property itself fails, over a much larger set of histories (oracles only)
